@@ -100,7 +100,12 @@ UnitMeaning(u) == [present |-> u.present, ver |-> u.ver, fmt |-> u.fmt, asz |-> 
 (* A sequence that consists of its end_sequence row alone maps no address  *)
 (* to any line: it has no meaning (conversion rewrites the address of such *)
 (* a row because it emits no set_address for a sequence without rows).     *)
-RowMeaning(r) == Drop(r, {"file_index"})
+(* The end_sequence row only gives the address one past the sequence: its   *)
+(* other registers describe no instruction (the writer does not reproduce  *)
+(* them: write::LineProgram::end_sequence uses the address offset and       *)
+(* op_index only).                                                          *)
+RowMeaning(r) == IF r.end THEN [addr |-> r.addr, op_index |-> r.op_index, end |-> TRUE]
+                 ELSE Drop(r, {"file_index"})
 EmptySeq(s) == Len(s.rows) = 1 /\ s.rows[1].end
 SeqMeaning(s) == [present |-> s.present, err |-> s.err,
                   rows |-> IF EmptySeq(s) THEN <<>> ELSE [i \in DOMAIN s.rows |-> RowMeaning(s.rows[i])]]
